@@ -162,11 +162,16 @@ pub fn find_naf(num: &[u64]) -> Vec<i8> {
             .zip(ark_std::iter::once(z).chain(ark_std::iter::repeat(0)))
             .fold(0, |borrow, (a, b)| sbb(a, b, borrow));
     };
-    // Add a value `z` without carry propagation
-    let add_nocarry = |num: &mut [u64], z: u64| {
-        num.iter_mut()
+    // Add a value `z`; a carry out of the top limb (only possible when every limb is
+    // `u64::MAX`) becomes a new most-significant limb instead of being dropped.
+    let add_nocarry = |num: &mut Vec<u64>, z: u64| {
+        let carry = num
+            .iter_mut()
             .zip(ark_std::iter::once(z).chain(ark_std::iter::repeat(0)))
             .fold(0, |carry, (a, b)| adc(a, b, carry));
+        if carry != 0 {
+            num.push(carry);
+        }
     };
     // Perform an in-place division of the number by 2
     let div2 = |num: &mut [u64]| {
